@@ -10,7 +10,7 @@
    each stream watcher is its own event (EWatch i): a schedule where the status goes
    Reconnecting -> Connected before a watcher looks at it is an ordinary event list (finding F9).
    The record [cfg] switches single statements between the code as it was before the fix commits
-   9b8bda8 (F5), b47e52f (F10), eca7266 (F19), 0d5b8e3 (supervisor leak), 741ede2 (F9) and the code as
+   9b8bda8 (F5), b47e52f (F10), eca7266 (F19), 0d5b8e3 (supervisor leak), 741ede2 (F9), 110718a (F46) and the code as
    it is now.  [faithful] is the code AS IT IS NOW (all repairs in); [former] is the code before those
    commits, kept so that the refutations stay checkable.  Executable; no proofs here. *)
 From Coq Require Import List NArith Bool.
@@ -42,12 +42,14 @@ Record cfg := mkCfg {
   fix_f10 : bool;    (* reconnect discards the new connection and returns ErrConnectionClosed instead of panicking on the failed CAS *)
   fix_leak : bool;   (* stream supervisors wait with WaitUntilOrClosed *)
   fix_f19 : bool;    (* closeWithError registers the closed event also when its close request fails *)
+  fix_f46 : bool;    (* Downstream.resume subscribes its alias once per connection, not once per attempt: the retry
+                        after a RESUME_REQUEST_CONFLICT answer works (110718a) *)
   ctx_first : bool   (* NOT in /repo: waitUntil looks at ctx.Done() BEFORE it consults the closed-status hook
                         (the order matters: the e2e senders wait on a context that a watcher cancels as soon as
                         the status is Closed) *)
 }.
-Definition faithful : cfg := mkCfg true true true true true false.     (* /repo as it is now *)
-Definition former : cfg := mkCfg false false false false false false.  (* /repo before the fix commits *)
+Definition faithful : cfg := mkCfg true true true true true true false.     (* /repo as it is now *)
+Definition former : cfg := mkCfg false false false false false false false.  (* /repo before the fix commits *)
 
 (* one evaluation of the loop of waitUntil(ctx, target, hooker): return nil / return the hooker's
    error / cond.Wait().  The hooker of WaitUntilOrClosed answers "closed" for connStatusClosed;
@@ -291,11 +293,11 @@ Definition resume_resp_step (c : conn) (i : N) (r : resp) : conn * list out :=
                    [OCloseReq (c_gen c) i; OStreamClosed i true])
               | RespConflict =>
                   (* the broker still holds the old incarnation of the stream: not a final answer; retry.Do
-                     runs the attempt again.  Upstream: the resume request is written again; whatever an
-                     earlier attempt answered is forgotten.  Downstream: the retried attempt first subscribes
-                     the alias again on the same wire connection - "already subscribed" - and the stream is
-                     closed with that error although the protocol asks for a retry (finding) *)
-                  if s_down s
+                     runs the attempt again: the resume request is written again and whatever an earlier
+                     attempt answered is forgotten.  FORMERLY (before 110718a, F46) the retried attempt of a
+                     DOWNSTREAM first subscribed its alias again on the same wire connection - "already
+                     subscribed" - and the stream was closed with that error *)
+                  if s_down s && negb (fix_f46 (c_cfg c))
                   then (set_streams c (upd_s i (fun s => set_phase s (SClosed true false)) (c_streams c)),
                         [OCloseReq (c_gen c) i; OStreamClosed i true])
                   else (c, [OResumeReq (c_gen c) i (s_down s)])
